@@ -261,11 +261,14 @@ void MD5::update(const void* plain_text_ptr, size_t plain_text_len)
     //! 下面代码是解决一个unsignde int 无法储存极大数据导致溢出的问题
     //! 当前位数加上新添加的位数，由于plain_text_len是以字节为单位，所以其转换为位数
     //! 相当于count_[0] += plain_text_len*8;
-    count_[0] += plain_text_len << 3;
+    //! 只取位数的低32位参与累加与比较（同 RFC1321 的 (UINT4)inputLen << 3）；
+    //! 否则在 size_t 为64位的平台上，下面的比较对 >= 512MiB 的输入恒为真，会多进一位
+    const uint32_t low_bits = static_cast<uint32_t>(plain_text_len << 3);
+    count_[0] += low_bits;
 
     //! 当其出现溢出的情况时，通过以下操作把两个16位的数连在一块，生成一个
     //! 32位的二进制数串，从而扩大其储存范围
-    if (count_[0] < (plain_text_len << 3))
+    if (count_[0] < low_bits)
         count_[1]++;
 
     count_[1] += plain_text_len >> 29;
